@@ -714,3 +714,9 @@ _DYN = "dynamics/__init__.py"
 V("c10-two-body-dynamics-singleton", "C10", "violation", "C10.R11", edits=[(_DYN, "def dynamicsFactory(", "_TWO_BODY = {}\n\n\ndef dynamicsFactory("), (_DYN, "            dynamics = TwoBody(method=prop_cfg.integration_method)\n", "            dynamics = _TWO_BODY.setdefault(prop_cfg.integration_method, TwoBody(method=prop_cfg.integration_method))\n")])
 V("c06-filter-factory-memoised", "C06", "violation", "C06.R10", edits=[(_EST, "def sequentialFilterFactory(", "from functools import lru_cache  # noqa: E402\n\n\n@lru_cache(maxsize=None)\ndef sequentialFilterFactory(")])
 V("c18-adaptive-filter-kept-per-config", "C18", "violation", "C18.R7", edits=[(_EST, "    return _ADAPTIVE_ESTIMATION_MAP[config.name].fromConfig(\n        config,\n        nominal_filter,\n        time_step,\n    )\n", "    kept = _ADAPTIVE_ESTIMATION_MAP.get(config.name + \"#kept\")\n    if kept is None:\n        kept = _ADAPTIVE_ESTIMATION_MAP[config.name].fromConfig(\n            config,\n            nominal_filter,\n            time_step,\n        )\n        _ADAPTIVE_ESTIMATION_MAP[config.name + \"#kept\"] = kept\n    return kept\n")])
+
+# ------------------------------------------------------------------------------------ C18.R8
+_SMM = "estimation/adaptive/smm.py"
+_APP = "                model_errs.append(abs(measured_range_rate - model_range_rate))\n"
+V("c18-preweight-errors-rounded", "C18", "violation", "C18.R8", edits=[(_SMM, _APP, "                model_errs.append(round(abs(measured_range_rate - model_range_rate), 3))\n")])
+V("c18-n-preweight-errors-scaled", "C18", "pass", edits=[(_SMM, _APP, "                model_errs.append(1000.0 * abs(measured_range_rate - model_range_rate))\n")])
